@@ -97,7 +97,9 @@ TSpec == TInit /\ [][TNext]_tvars
 \* Prop invariants are evaluated on every state of every observed execution.
 TraceProp == DevInv(d, Cfg)
 
-Progress == TLCSet(tid, <<l - 1, IF status # "ok" THEN status ELSE IF TraceProp THEN "ok" ELSE "prop_invariant">>)
+Verdict == IF status # "ok" THEN status ELSE IF TraceProp THEN "ok" ELSE "prop_invariant"
+\* FALSE after a failure: the trace is not followed further, so a later step cannot overwrite the verdict
+Progress == TLCSet(tid, <<l - 1, Verdict>>) /\ Verdict = "ok"
 
 Verdicts == JsonSerialize(IOEnv.VERDICT_FILE, [i \in 1..Len(Logs) |-> TLCGet(i)])
 =============================================================================
